@@ -353,7 +353,9 @@ type Tap struct {
 
 func NewTap(c net.Conn) *Tap { return &Tap{Conn: c, first: true, Keep: true} }
 
-func le32(b []byte) int { return int(uint32(b[0]) | uint32(b[1])<<8 | uint32(b[2])<<16 | uint32(b[3])<<24) }
+func le32(b []byte) int {
+	return int(uint32(b[0]) | uint32(b[1])<<8 | uint32(b[2])<<16 | uint32(b[3])<<24)
+}
 
 func (t *Tap) feed(acc *[]byte, p []byte, out bool) {
 	*acc = append(*acc, p...)
